@@ -34,6 +34,9 @@ def run_py(hist) -> Tuple[List[Any], Any]:
         if ev[0] == "w":
             lcd.write(ev[1], ev[2])
             outs.append(None)
+        elif ev[0] == "x":
+            lcd.reset()
+            outs.append(None)
         elif ev[0] == "s":
             # what PCE500Emulator._capture_lcd_snapshot/_restore_lcd_snapshot do, into a fresh controller
             sn = lcd.get_snapshot()
@@ -54,7 +57,7 @@ def run_py(hist) -> Tuple[List[Any], Any]:
 def rs_req(hist):
     ops = []
     for ev in hist:
-        ops.append({"w": [ev[1], ev[2]]} if ev[0] == "w" else {"snap": 1} if ev[0] == "s" else {"r": ev[1]})
+        ops.append({"w": [ev[1], ev[2]]} if ev[0] == "w" else {"snap": 1} if ev[0] == "s" else {"reset": 1} if ev[0] == "x" else {"r": ev[1]})
     ops.append({"obs": False})
     return {"cmd": "lcd", "script": ops}
 
@@ -62,7 +65,7 @@ def rs_req(hist):
 def rs_unpack(resp, hist):
     outs = []
     for ev, o in zip(hist, resp["out"]):
-        outs.append(None if ev[0] in ("w", "s") else o["v"])
+        outs.append(None if ev[0] in ("w", "s", "x") else o["v"])
     obs = resp["out"][-1]
     vram = bytes.fromhex(obs["vram"])
     st = []
@@ -79,6 +82,9 @@ def run_ref(hist):
         if ev[0] == "w":
             r.write(ev[1], ev[2])
             outs.append(None)
+        elif ev[0] == "x":
+            r.reset()
+            outs.append(None)
         elif ev[0] == "s":
             outs.append(None)          # save -> fresh controller -> load is the identity
         else:
@@ -87,7 +93,7 @@ def run_ref(hist):
 
 
 def describe(ev) -> str:
-    return f"W[{ev[1]:#06x}]={ev[2]:#04x}" if ev[0] == "w" else "SNAPSHOT" if ev[0] == "s" else f"R[{ev[1]:#06x}]"
+    return f"W[{ev[1]:#06x}]={ev[2]:#04x}" if ev[0] == "w" else "SNAPSHOT" if ev[0] == "s" else "RESET" if ev[0] == "x" else f"R[{ev[1]:#06x}]"
 
 
 def judge(hist, py, rs, vb: VB) -> Tuple:
@@ -123,7 +129,9 @@ def _ref_busy(hist):
     for ev in hist:
         if ev[0] == "w":
             r.write(ev[1], ev[2])
-        else:
+        elif ev[0] == "x":
+            r.reset()
+        elif ev[0] == "r":
             r.read(ev[1])
     return r.chips
 
@@ -203,27 +211,29 @@ def _shard_wrap(runs):
 
 # ---- pixel map -----------------------------------------------------------------------------
 
-def _py_display(vram_bytes: bytes) -> List[str]:
+def _py_display(vram_bytes: bytes, sl: int = 0) -> List[str]:
     lcd = HD61202Controller()
-    meta = {"chips": [{"on": True}, {"on": True}], "pages": 8, "width": 64}
+    meta = {"chips": [{"on": True, "start_line": sl}, {"on": True, "start_line": sl}], "pages": 8, "width": 64}
     lcd.load_snapshot(meta, vram_bytes)
     buf = lcd.get_display_buffer()
     return ["".join("1" if v else "0" for v in row) for row in buf]
 
 
-def _rs_display_req(vram_bytes: bytes):
-    return {"cmd": "lcd", "script": [{"w": [0x2000, 0x3F]}, {"setvram": vram_bytes.hex()}, {"obs": True}]}
+def _rs_display_req(vram_bytes: bytes, sl: int = 0):
+    return {"cmd": "lcd", "script": [{"w": [0x2000, 0x3F]}, {"w": [0x2000, 0xC0 | (sl & 0x3F)]}, {"setvram": vram_bytes.hex()}, {"obs": True}]}
 
 
 def _pixelmap(args):
-    impl, chip, pages = args
+    impl, chip, pages = args[:3]
+    sl = args[3] if len(args) > 3 else 0          # display start line the map is taken under
+    sfx = f"/start-line-{sl}" if sl else ""
     vb = VB()
     h = rb.harness() if impl == "rust" else None
     base_v = bytes(1024)
     if impl == "rust":
-        base = h.call(_rs_display_req(base_v))["out"][-1]["display"]
+        base = h.call(_rs_display_req(base_v, sl))["out"][-1]["display"]
     else:
-        base = _py_display(base_v)
+        base = _py_display(base_v, sl)
     owner: Dict[Tuple[int, int], Tuple[int, int, int, int]] = {}
     n = 0
     multi = 0
@@ -237,22 +247,22 @@ def _pixelmap(args):
                 keys.append((chip, page, col, bit))
                 reqs.append(bytes(v))
         if impl == "rust":
-            outs = [o["out"][-1]["display"] for o in h.batch([_rs_display_req(v) for v in reqs])]
+            outs = [o["out"][-1]["display"] for o in h.batch([_rs_display_req(v, sl) for v in reqs])]
         else:
-            outs = [_py_display(v) for v in reqs]
+            outs = [_py_display(v, sl) for v in reqs]
         for key, disp in zip(keys, outs):
             n += 1
             changed = [(r, c) for r in range(32) for c in range(240) if disp[r][c] != base[r][c]]
             if len(changed) > 1:
                 multi += 1
-                vb.add(f"C15/{impl}/pixelmap/bit-drives-several-pixels", f"{impl}: VRAM bit chip{key[0]} page{key[1]} col{key[2]} "
-                       f"bit{key[3]} changes {len(changed)} pixels {changed[:4]}", {"pixelmap": impl, "key": list(key)})
+                vb.add(f"C15/{impl}/pixelmap/bit-drives-several-pixels{sfx}", f"{impl}: VRAM bit chip{key[0]} page{key[1]} col{key[2]} "
+                       f"bit{key[3]} changes {len(changed)} pixels {changed[:4]} (start line {sl})", {"pixelmap": impl, "key": list(key), "sl": sl})
             for px in changed:
                 if px in owner:
-                    vb.add(f"C15/{impl}/pixelmap/pixel-driven-by-two-bits", f"{impl}: pixel {px} driven by {owner[px]} and {key}",
-                           {"pixelmap": impl, "key": list(key)})
+                    vb.add(f"C15/{impl}/pixelmap/pixel-driven-by-two-bits{sfx}", f"{impl}: pixel {px} driven by {owner[px]} and {key} (start line {sl})",
+                           {"pixelmap": impl, "key": list(key), "sl": sl, "chipwide": True})
                 owner[px] = key
-    return {"impl": impl, "n": n, "owner": {f"{r},{c}": list(k) for (r, c), k in owner.items()}, "vb": vb}
+    return {"impl": impl, "n": n, "sl": sl, "chip": chip, "owner": {f"{r},{c}": list(k) for (r, c), k in owner.items()}, "vb": vb}
 
 
 def _single_write_check(impl) -> VB:
@@ -286,19 +296,46 @@ def _single_write_check(impl) -> VB:
 def run(ctx) -> None:
     rb.build()
     addrs = addresses(ctx.thorough)
-    events = [("w", a, v) for a in addrs for v in WRITE_VALUES] + [("r", a, 0) for a in addrs]
+    events = [("w", a, v) for a in addrs for v in WRITE_VALUES] + [("r", a, 0) for a in addrs] + [("x", 0, 0)]
     if ctx.seed:
         events += [("w", a, (ctx.seed * 37 + 11) & 0xFF) for a in addrs[:32]]
     depth = 3 if ctx.thorough else 2
     reduced = [("w", a, v) for a in (0x2000, 0x2002, 0x2004, 0x2006, 0x2008, 0x200A, 0xA00A, 0x2003) for v in (0x3F, 0x41, 0xB9, 0xC1, 0xA5)] + \
-              [("r", a, 0) for a in (0x2005, 0x2007, 0x2009, 0x200B, 0xA00B, 0x2001, 0x2003)]
-    second = events if ctx.thorough else [e for e in events if e[0] == "r" or e[2] in (0x3F, 0x41, 0xBB, 0xC1, 0xA5)]
+              [("r", a, 0) for a in (0x2005, 0x2007, 0x2009, 0x200B, 0xA00B, 0x2001, 0x2003)] + [("x", 0, 0)]
+    second = events if ctx.thorough else [e for e in events if e[0] in ("r", "x") or e[2] in (0x3F, 0x41, 0xBB, 0xC1, 0xA5)]
     jobs = [(s, second, depth) for s in chunks(events, nproc() * 2)]
     jobs += [(s, reduced, 4 if ctx.thorough else 3) for s in chunks(reduced, nproc())]
     res = pmap(_bfs, jobs)
     wres = pmap(_shard_wrap, chunks(_wrap_runs(), nproc()))
     pm = pmap(_pixelmap, [(impl, chip, [p]) for impl in ("python", "rust") for chip in (0, 1) for p in range(8)])
-    for r in res + wres + pm:
+    # the map must stay one-to-one under every display start line (scrolling only permutes rows)
+    sls = (1, 9, 36) if not ctx.thorough else (1, 7, 8, 9, 31, 32, 36, 63)
+    pmsl = pmap(_pixelmap, [(impl, chip, list(range(8)), sl) for impl in ("python", "rust") for chip in (0, 1) for sl in sls])
+    for r in pmsl:
+        full = sum(len(x["owner"]) for x in pm if x["impl"] == r["impl"] and [k for k in x["owner"].values()][:1] and list(x["owner"].values())[0][0] == r["chip"])
+        if len(r["owner"]) != full:
+            ctx.violation(f"C15/{r['impl']}/pixelmap/pixels-lost-under-start-line", f"{r['impl']}: chip {r['chip']} drives {full} pixels with start line 0 "
+                          f"but {len(r['owner'])} with start line {r['sl']}", {"pixelmap": r["impl"], "key": [r["chip"], 0, 0, 0], "sl": r["sl"], "count": True})
+    # the start line is the VRAM line shown at the top of the chip (HD61202): under start line s every pixel is driven by the
+    # bit s lines further down (mod 64) in the same column than under start line 0 -- or by the same bit, for a view that does
+    # not model scrolling at all; anything else is not a scroll
+    for r in pmsl:
+        base0 = {}
+        for x in pm:
+            if x["impl"] == r["impl"]:
+                base0.update({k: v for k, v in x["owner"].items() if v[0] == r["chip"]})
+        def rot(v, s_):
+            line = (v[1] * 8 + v[3] + s_) % 64
+            return [v[0], line // 8, v[2], line % 8]
+        same = all(r["owner"].get(k) == v for k, v in base0.items())
+        scrolled = all(r["owner"].get(k) == rot(v, r["sl"]) for k, v in base0.items())
+        if not (same or scrolled):
+            bad = next(k for k, v in base0.items() if r["owner"].get(k) not in (v, rot(v, r["sl"])))
+            ctx.violation(f"C15/{r['impl']}/pixelmap/start-line-is-not-a-scroll", f"{r['impl']}: chip {r['chip']} start line {r['sl']}: pixel {bad} is driven by "
+                          f"{r['owner'].get(bad)}; with start line 0 it is {base0[bad]}, scrolled by {r['sl']} lines it would be {rot(base0[bad], r['sl'])}",
+                          {"pixelmap": r["impl"], "key": [r["chip"], 0, 0, 0], "sl": r["sl"], "scroll": True})
+    ctx.coverage["pixelmap_start_lines"] = list(sls)
+    for r in res + wres + pm + pmsl:
         ctx.merge_bucket(r["vb"])
     for impl in ("python", "rust"):
         ctx.merge_bucket(_single_write_check(impl))
@@ -344,6 +381,18 @@ def replay(ctx, w) -> Optional[str]:
     if "history" in w:
         hist = tuple(tuple(e) for e in w["history"])
         judge(hist, run_py(hist), rs_unpack(rb.harness().call(rs_req(hist)), hist), vb)
+    elif "pixelmap" in w and (w.get("scroll") or w.get("count")):
+        impl, chip, sl = w["pixelmap"], w["key"][0], w["sl"]
+        o0 = _pixelmap((impl, chip, list(range(8)), 0))["owner"]
+        o1 = _pixelmap((impl, chip, list(range(8)), sl))["owner"]
+        def rot(v, s_):
+            line = (v[1] * 8 + v[3] + s_) % 64
+            return [v[0], line // 8, v[2], line % 8]
+        if w.get("count"):
+            return None if len(o0) == len(o1) else f"{impl}: chip {chip} drives {len(o0)} pixels at start line 0, {len(o1)} at {sl}"
+        same = all(o1.get(k) == v for k, v in o0.items())
+        scrolled = all(o1.get(k) == rot(v, sl) for k, v in o0.items())
+        return None if (same or scrolled) else f"{impl}: chip {chip}: start line {sl} is neither ignored nor a scroll by {sl} lines"
     elif "pixelmap" in w:
         impls = ("python", "rust") if w["pixelmap"] == "both" else (w["pixelmap"],)
         owners = {}
@@ -352,7 +401,7 @@ def replay(ctx, w) -> Optional[str]:
             chips = (0, 1) if w.get("whole") else (w["key"][0],)
             owners[impl] = {}
             for chip in chips:
-                r = _pixelmap((impl, chip, list(pages)))
+                r = _pixelmap((impl, chip, list(range(8)) if (w.get("chipwide") or w.get("count")) else list(pages), w.get("sl", 0)))
                 vb.d.update(r["vb"].d)
                 owners[impl].update(r["owner"])
             if w.get("whole"):
